@@ -975,7 +975,7 @@ def _mc_key(b):
 
 def _direct_must_calls(crate, b):
     """[(name, target id or None)] of the weighty crate-local calls on every path from the entry of b to a normal return"""
-    key = ("dmc", b.id)
+    key = ("dmc", b.id, id(b) if hasattr(b, "origin") else 0)      # (an inline view shares its id with the body it was made from)
     if key in crate._cache:
         return crate._cache[key]
     rets = b.return_blocks()
@@ -1090,6 +1090,30 @@ def must_call_census(ctx, crate, files):
         got = must_calls(crate, b, weighty_only=False)       # (weight is judged on the reviewed tree only)
         if got is None:
             continue
+        # a callee steered by a constant flag / enum argument (`add_expr(re) = add_expr_with(re, AddKind::Semantic)`): what it
+        # always calls *for that constant* counts — look at the function with such callees spliced in and their dispatch decided
+        steered = set()
+        for c in b.calls:
+            if c.callee and c.callee.target in crate.bodies and c.callee.target != b.id and not b.blocks[c.bb]["cleanup"]:
+                for a in c.args:
+                    r = strip_role(b.role_of_operand(a))
+                    if isinstance(r, tuple) and ((r[0] == "agg" and not r[2] and isinstance(r[1], str) and "::" in r[1]) or (r[0] == "const" and str(r[1]) in ("true", "false"))):
+                        steered.add(c.callee.target)
+        if steered:
+            v = mir.inline_view(crate, b, depth=1, policy=steered, keep=())
+            if v is not b:
+                seen_ = set()
+                work_ = []
+                for nm_, t_ in _direct_must_calls(crate, v):
+                    got.add(nm_)
+                    if t_ is not None:
+                        work_.append(t_)
+                while work_:
+                    f_ = work_.pop()
+                    if f_.id in seen_:
+                        continue
+                    seen_.add(f_.id)
+                    got |= (must_calls(crate, f_, weighty_only=False) or set())
         # report a lost call where it was lost: not again in every function that always calls that one
         inherited = set()
         for nm_, t_ in _direct_must_calls(crate, b):
@@ -1107,3 +1131,24 @@ def must_call_census(ctx, crate, files):
                       "%s can now return normally without calling %s, which every path through it called in the reviewed tree: an early exit / fast path was put in front of work this function always did" % (short(b.id), w),
                       where_of(b))
     ctx.floor("functions compared with the must-call table", n, 1)
+
+
+def self_symmetry_sites(crate):
+    """[(root function, call site of Group::add on a class's group)] outside the leader union and the slot-set writers; a
+    single-use private helper that holds the call (the tail of the deriver's loop extracted) is seen through its caller"""
+    key = "self_symmetry_sites"
+    if key in crate._cache:
+        return crate._cache[key]
+    sw = set(slot_writers(crate))
+    leaders = set(leader_union_functions(crate)) | set(leader_helpers(crate))
+    pol = mir.default_inline_policy(crate)
+    out = []
+    for b in crate.fns():
+        if b.id in leaders or b.id in sw or b.id in pol:
+            continue
+        v = mir.inline_view(crate, b, keep=tuple(sorted(leaders | sw)))
+        for c in v.all_calls():
+            if c.callee and c.callee.is_("add", "group::Group") and c.args and mir.role_mentions_field(c.body.role_of_operand(c.args[0]), "classes") and not c.body.blocks[c.bb]["cleanup"]:
+                out.append((b, c))
+    crate._cache[key] = out
+    return out
